@@ -35,8 +35,11 @@ PropFails(t) ==
         THEN {"LegalAccepted"} ELSE {})
   \cup (IF t.mode = "chunked" /\ ref.st \in {"trunc", "nocrlf"} /\ t.phase = "done" THEN {"TruncRejected"} ELSE {})
   \cup (IF t.mode = "chunked" /\ ref.st = "ok" /\ t.phase = "done" /\ t.out # ref.pay THEN {"RefExact"} ELSE {})
+  \* over the limit => 413; within => accepted.  A declared Content-Length above the limit may be
+  \* refused early even if the stream then delivers less (weaker reading).
   \cup (IF t.maxBody >= 0 /\ size >= 0 /\ (t.mode = "cl" \/ t.kind = "legal") /\
-           ((size > t.maxBody /\ t.phase # "e413") \/ (size <= t.maxBody /\ t.phase # "done"))
+           ((size > t.maxBody /\ t.phase # "e413")
+            \/ (size <= t.maxBody /\ t.phase # "done" /\ ~(t.mode = "cl" /\ t.cl > t.maxBody /\ t.phase = "e413")))
         THEN {"LimitVerdict"} ELSE {})
   \cup (IF t.maxBody < 0 /\ t.phase = "e413" THEN {"LimitVerdict"} ELSE {})
   \cup (IF t.maxBody >= 0 /\ t.mode = "cl" /\ GotTotal(t.ev, 1) > t.maxBody + t.buf THEN {"ReadBound"} ELSE {})
